@@ -109,6 +109,7 @@ func runC18(c *config) {
 	// 2. keywords through parse and print of a minimal module
 	c18Modules(c, vals)
 	c18Headers(c, vals, newRng(c.seed, "c18headers"))
+	c18DI(c, vals)
 
 	// 3. flag sets
 	c18FlagSets(c, r)
